@@ -474,7 +474,8 @@ def wf_oracle(real: Real) -> list[str]:
 
 def deep_snapshot(real: Real) -> Any:
     """Every public accessor of every registered object (+ the name authority, whose state decides later
-    generated names). Separate implementation from `Real.snapshot`."""
+    generated names, and the tracked lists' reference counters, which decide when a later removal clears an
+    ownership flag). Separate implementation from `Real.snapshot`."""
     ix_v, ix_n, ix_g = real.vid, real.nid, real.gid
 
     def V(x):
@@ -543,6 +544,10 @@ def deep_snapshot(real: Real) -> Any:
                 tuple(sorted(g.opset_imports.items())),
                 tuple(sorted(g.metadata_props.items())),
                 (na._value_counter, na._node_counter, tuple(sorted(na._value_names)), tuple(sorted(na._node_names))),
+                # per-list reference counters: latent state that decides when a later removal clears the
+                # is_graph_input / is_graph_output flag (read like the name authority, for the same reason)
+                tuple(sorted((ix_v.get(id(x), -1), c) for x, c in g.inputs._ref_counter.items() if c != 0)),
+                tuple(sorted((ix_v.get(id(x), -1), c) for x, c in g.outputs._ref_counter.items() if c != 0)),
             )
         )
     return tuple(out)
@@ -1162,11 +1167,15 @@ NOT_ATOMIC = ("rauwMany", "replaceNodesAndValues")
 VIA_FUNCTION = ("io", "append", "extend", "insertAfter", "insertBefore", "remove", "sort", "replaceNodesAndValues")
 
 
-def run_one(rng: random.Random, length: int, part: Part, fixed_ops: list | None = None, p_invalid: float = 0.3) -> dict:
+def run_one(
+    rng: random.Random, length: int, part: Part, fixed_ops: list | None = None, p_invalid: float = 0.3, keep: list | None = None
+) -> dict:
     """Generate and execute one history on the real objects; evaluate both oracles after every call.
     Returns {"ops", "outcomes", "deltas"} truncated at the first oracle failure (the state is then outside
     the invariant and nothing after it is meaningful)."""
     real = Real()
+    if keep is not None:
+        keep.append(real)  # keep earlier instances alive so that fresh objects get fresh addresses
     gen = Gen(rng, real, p_invalid)
     ops, mops, outcomes, deltas = [], [], [], []
     prev = EMPTY
@@ -1480,6 +1489,94 @@ def run_after_reject(ctx, prop: str, depth: int = 3, procs: int = 16) -> str:
         f"all {len(tails)} histories: prelude, one of 6 rejected calls on g.inputs / g.outputs, then <= {depth} calls "
         "from 6 mutators of the same list applied to the same value"
     )
+
+
+def sort_scenarios() -> list[list[dict]]:
+    """Nested graphs (graph-valued attributes) with a dependency cycle in one graph of the nest and acyclic but
+    out-of-order siblings / children / parents, then `sort()` on the root (which must reject without moving a
+    node of ANY graph) and on the subgraphs.  Each scenario is built in several allocation orders and with
+    padding objects in between, because the library visits the graphs of a nest in the hash order of the
+    graph objects."""
+
+    def val(name=None):
+        return {"op": "newValue", "name": name}
+
+    def node(ins, name, attr=None, graph=None):
+        op = {"op": "newNode", "opType": "Id", "name": name, "inputs": ins, "numOutputs": None, "outputs": None, "graph": graph}
+        if attr is not None:
+            op["attrGraphs"] = attr
+        return op
+
+    def graph(nodes):
+        return {"op": "newGraph", "inputs": [], "outputs": [], "nodes": nodes, "inits": []}
+
+    out = []
+    for pad in range(6):
+        for root_first in (False, True):
+            for shape in ("cycle-in-root", "cycle-in-child", "siblings"):
+                ops = [val("x")]  # v0
+                padding = [val(f"pad{i}") for i in range(pad)]
+                # chain a -> b stored as [b, a] (acyclic, out of order): nodes 0,1 ; values v1 (a.out) v2 (b.out)
+                ops += [node([0], "a"), node([1], "b")]
+                # cycle c <-> d: nodes 2,3 ; values v3 v4
+                ops += [node([None], "c"), node([3], "d"), {"op": "replaceInput", "n": 2, "idx": 0, "v": 4}]
+                nv = 5  # next value id
+                if shape == "cycle-in-root":
+                    # child S = [b, a]; root R = [owner(S), c, d]
+                    if root_first:
+                        ops += [graph([])] + padding + [graph([1, 0])]  # g0 = R (empty), g1 = S
+                        ops += [node([], "owner", attr=[1])]  # n4
+                        ops += [{"op": "extend", "g": 0, "ns": [4, 2, 3]}]
+                        root, subs = 0, [1]
+                    else:
+                        ops += [graph([1, 0])] + padding + [node([], "owner", attr=[0]), graph([4, 2, 3])]
+                        root, subs = 1, [0]
+                elif shape == "cycle-in-child":
+                    # child S = [c, d] (cyclic); root R = [b, a, owner(S)] out of order
+                    if root_first:
+                        ops += [graph([])] + padding + [graph([2, 3]), node([], "owner", attr=[1])]
+                        ops += [{"op": "extend", "g": 0, "ns": [1, 0, 4]}]
+                        root, subs = 0, [1]
+                    else:
+                        ops += [graph([2, 3])] + padding + [node([], "owner", attr=[0]), graph([1, 0, 4])]
+                        root, subs = 1, [0]
+                else:
+                    # two children: S1 = [b, a] out of order, S2 = [c, d] cyclic; root R = [owner1, owner2]
+                    if root_first:
+                        ops += [graph([])] + padding + [graph([1, 0]), graph([2, 3])]
+                        ops += [node([], "o1", attr=[1]), node([], "o2", attr=[2])]
+                        ops += [{"op": "extend", "g": 0, "ns": [4, 5]}]
+                        root, subs = 0, [1, 2]
+                    else:
+                        ops += [graph([2, 3])] + padding + [graph([1, 0])]
+                        ops += [node([], "o1", attr=[1]), node([], "o2", attr=[0]), graph([5, 4])]
+                        root, subs = 2, [0, 1]
+                del nv
+                tail = [{"op": "sort", "g": root}] + [{"op": "sort", "g": g} for g in subs] + [{"op": "sort", "g": root, "via": "function"}]
+                out.append(ops + tail)
+    return out
+
+
+def run_sort_scenarios(ctx, prop: str, procs: int = 16) -> str:
+    hs = sort_scenarios()
+    jobs = [hs[i : i + 4] for i in range(0, len(hs), 4)]
+    for part in pmap(_sort_worker, jobs, procs):
+        split_failures(part, prop)
+        ctx.merge(part)
+    return f"{len(hs)} nested-graph sort histories (3 shapes x 2 allocation orders x 6 paddings)"
+
+
+_KEEP_ALIVE: list = []
+
+
+def _sort_worker(hists):
+    part = Part()
+    done = []
+    for ops in hists:
+        h = run_one(random.Random(0), 0, part, fixed_ops=ops, keep=_KEEP_ALIVE)
+        done.append(h)
+    compare_with_model(part, done)
+    return part
 
 
 def replay_ops(ctx, prop: str, ops: list) -> None:
